@@ -229,7 +229,13 @@ Example C01_known_witnesses :
   /\ (let q := Q [SQ [CMatch true [(NP (Some 1) [3] [], [])] None;
                      CMatch false [(NP (Some 2) [0] [], [])] (Some (EProp 1 2))]
                     (ret1 (IExpr (EFn FId [EVar 2])))] false in
-      eval_query fixed_graph q = Ok [] /\ Known_syntactic q = true).
+      eval_query fixed_graph q = Ok [] /\ Known_syntactic q = true)
+  (* match_unwind_with: MATCH (n:A) UNWIND [1, 2] AS x WITH x AS y RETURN y *)
+  /\ (let q := Q [SQ [CMatch false [(NP (Some 1) [0] [], [])] None;
+                     CUnwind (ELit (VList [VInt 1; VInt 2])) 2;
+                     CWith (PJ false [(IExpr (EVar 2), 3)] [] None None) None]
+                    (ret1 (IExpr (EVar 3)))] false in
+      eval_query fixed_graph q = Ok [[VInt 1]; [VInt 2]; [VInt 1]; [VInt 2]] /\ Known_syntactic q = true).
 Proof. vm_compute. repeat split. Qed.
 
 Print Assumptions C01_match_sound_complete.
